@@ -793,6 +793,99 @@ theorem emplace_alias_broke_fix1_code :
 example : abs (stepFixed 1000 roomy4 {} (.pushBackMove (.slot 1))).arr = [10, movedVal, 30, 40, 20] ∧
     (stepFixed 1000 roomy4 {} (.pushBackMove (.slot 1))).log.viol = 0 := by decide
 
+/-- the four-part outcome used for the current code: disciplined, refines `expect` (or threw and changed
+nothing), balanced -/
+def Outcome (a : Arr) (L : Log) (r : Res) (expect : List Elt) : Prop :=
+  r.log.viol = L.viol ∧ (r.thrown = false → Rep r.arr expect) ∧ (r.thrown = true → r.arr = a) ∧
+  r.log.ctor + a.size + L.dtor = r.log.dtor + r.arr.size + L.ctor
+
+theorem Outcome.of_stepOK {a : Arr} {L : Log} {r : Res} {e : List Elt} (h : StepOK a L r e ∨ Unchanged a L r) :
+    Outcome a L r e := by
+  rcases h with hk | hk
+  · exact ⟨hk.viol, fun _ => hk.rep, fun ht => (by rw [hk.nothrow] at ht; cases ht), hk.bal⟩
+  · obtain ⟨h1, h2, h3⟩ := hk
+    exact ⟨by rw [h2], fun ht => (by rw [h3] at ht; cases ht), fun _ => h1, by rw [h1, h2]; omega⟩
+
+/-- `emplace_back` of the current code (ff598e36): when it reallocates, the new element is constructed in
+the new block from the still-live arguments, then the old elements are moved — any element may be passed -/
+theorem emplaceBack2_ok (mx : Nat) (a : Arr) (L : Log) (vs : List Elt) (r : Ref) (h : Rep a vs)
+    (hi : ∀ i, r = .slot i → i < vs.length) :
+    Outcome a L (emplaceBack2 mx a L r) (vs ++ [r.value vs]) := by
+  have hs := h.size
+  have hle := h.le
+  have hread := readRef_inPlace L r h hi
+  by_cases hfull : a.cap = a.size
+  · unfold emplaceBack2
+    rw [if_pos hfull]
+    cases hc : calcNewCapacityForGrowthBy mx a.cap 1 with
+    | none => exact ⟨rfl, fun ht => (by cases ht), fun _ => rfl, by show L.ctor + a.size + L.dtor = L.dtor + a.size + L.ctor; omega⟩
+    | some nc =>
+      have hge := calcNew_ge hc
+      unfold Arr.cap at hge hfull
+      obtain ⟨r1, r2, r3⟩ := realloc_with_new L nc a.size (r.value vs) h (by omega) (by omega)
+      simp only [Nat.sub_self, moveRange] at r1 r2 r3
+      have e : splice vs a.size a.size [r.value vs] = vs ++ [r.value vs] := by rw [hs]; simp [splice]
+      rw [e] at r1
+      simp only [hread]
+      refine ⟨by show (moveRange _ _ _ 0 0 a.size).2.2.viol = _; rw [r3]; rfl, fun _ => r1, fun ht => (by cases ht), ?_⟩
+      show (moveRange _ _ _ 0 0 a.size).2.2.ctor + a.size + L.dtor = (moveRange _ _ _ 0 0 a.size).2.2.dtor + (a.size + 1) + L.ctor
+      rw [r3]; simp only [Log.adv_ctor, Log.adv_dtor]; omega
+  · have e : emplaceBack2 mx a L r = pushBack mx a L r := by
+      unfold emplaceBack2 pushBack; rw [if_neg hfull, if_neg hfull]
+    rw [e]
+    apply Outcome.of_stepOK
+    cases r with
+    | ext v => exact pushBack_ok (mx := mx) L (.ext v) h rfl rfl
+    | slot i =>
+      have := hi i rfl
+      exact pushBack_ok (mx := mx) L (.slot i) h (by simpa [legal, hs] using this) (by simp [refOK, hfull])
+
+/-- `emplace` of the current code (ff598e36) — any element may be passed -/
+theorem emplace2_ok (mx : Nat) (a : Arr) (L : Log) (vs : List Elt) (p : Nat) (r : Ref) (h : Rep a vs)
+    (hp : p ≤ vs.length) (hi : ∀ i, r = .slot i → i < vs.length) :
+    Outcome a L (emplace2 mx a L p r) (splice vs p p [r.value vs]) := by
+  have hs := h.size
+  have hle := h.le
+  have hread := readRef_inPlace L r h hi
+  by_cases hfull : a.cap = a.size
+  · unfold emplace2
+    rw [if_neg (by simpa using hfull)]
+    cases hc : calcNewCapacityForGrowthBy mx a.cap 1 with
+    | none => exact ⟨rfl, fun ht => (by cases ht), fun _ => rfl, by show L.ctor + a.size + L.dtor = L.dtor + a.size + L.ctor; omega⟩
+    | some nc =>
+      have hge := calcNew_ge hc
+      unfold Arr.cap at hge hfull
+      obtain ⟨r1, r2, r3⟩ := realloc_with_new L nc p (r.value vs) h hp (by omega)
+      simp only [hread]
+      refine ⟨by show (moveRange _ _ _ (p + 1) p (a.size - p)).2.2.viol = _; rw [r3]; rfl, fun _ => r1, fun ht => (by cases ht), ?_⟩
+      show (moveRange _ _ _ (p + 1) p (a.size - p)).2.2.ctor + a.size + L.dtor
+        = (moveRange _ _ _ (p + 1) p (a.size - p)).2.2.dtor + (a.size + 1) + L.ctor
+      rw [r3]; simp only [Log.adv_ctor, Log.adv_dtor]; omega
+  · by_cases hend : p = a.size
+    · have e : emplace2 mx a L p r = pushBack mx a L r := by
+        unfold emplace2 pushBack; rw [if_pos hfull, if_pos hend, if_neg hfull]
+      have e2 : splice vs p p [r.value vs] = vs ++ [r.value vs] := by rw [hend, hs]; simp [splice]
+      rw [e, e2]
+      apply Outcome.of_stepOK
+      cases r with
+      | ext v => exact pushBack_ok (mx := mx) L (.ext v) h rfl rfl
+      | slot i =>
+        have := hi i rfl
+        exact pushBack_ok (mx := mx) L (.slot i) h (by simpa [legal, hs] using this) (by simp [refOK, hfull])
+    · -- a temporary is built first, then the gap is made and the temporary moved in
+      have e : emplace2 mx a L p r =
+          { insert mx a { L with ctor := L.ctor + 1 } p (.ext (r.value vs)) with
+            log := { (insert mx a { L with ctor := L.ctor + 1 } p (.ext (r.value vs))).log with
+              dtor := (insert mx a { L with ctor := L.ctor + 1 } p (.ext (r.value vs))).log.dtor + 1 } } := by
+        unfold emplace2; rw [if_pos hfull, if_neg hend]; simp only [hread]
+      rw [e]
+      rcases insert_ok (mx := mx) { L with ctor := L.ctor + 1 } (.ext (r.value vs)) h hp (by intro i hi'; cases hi') rfl with hk | hk
+      · exact ⟨hk.viol, fun _ => hk.rep, fun ht => (by have := hk.nothrow; simp only [] at ht; rw [this] at ht; cases ht),
+          by have := hk.bal; simp only [] at this ⊢; omega⟩
+      · refine ⟨by simp only []; rw [hk.2.1], fun ht => (by have := hk.2.2; simp only [] at ht; rw [this] at ht; cases ht),
+          fun _ => hk.1, ?_⟩
+        simp only []; rw [hk.1, hk.2.1]; simp only []; omega
+
 /-- the conclusion of `fixed2_step_disciplined`, named so that it can be used for intermediate steps -/
 def Fixed2OK (mx : Nat) (a : Arr) (L : Log) (vs : List Elt) (op : Op) : Prop :=
     (stepFixed2 mx a L op).log.viol = L.viol ∧
@@ -818,22 +911,6 @@ theorem fixed2_step_disciplined (mx : Nat) (a : Arr) (L : Log) (vs : List Elt) (
   have viaFixed : stepFixed2 mx a L op = stepFixed mx a L op → unguardedOK a op = true → Fixed2OK mx a L vs op := fun e hu => by
     unfold Fixed2OK
     rw [e]; exact hist_fix1_step_disciplined mx a L vs op h hl hu
-  -- a temporary copy of element `i`, then the operation with that external value
-  have viaCopy : ∀ (i : Nat) (op' : Op), i < vs.length →
-      stepFixed2 mx a L op =
-        { step mx a { L with ctor := L.ctor + 1 } op' with
-          log := { (step mx a { L with ctor := L.ctor + 1 } op').log with
-            dtor := (step mx a { L with ctor := L.ctor + 1 } op').log.dtor + 1 } } →
-      legal mx a op' = true → refOK a op' = true → spec vs op' = spec vs op → Fixed2OK mx a L vs op := by
-    intro i op' hi e hl' hr' hspec
-    unfold Fixed2OK
-    rw [e, ← hspec]
-    rcases step_ok mx a { L with ctor := L.ctor + 1 } vs op' h hl' hr' with hk | hk
-    · exact ⟨hk.viol, fun _ => hk.rep, fun ht => (by have := hk.nothrow; simp only [] at ht; rw [this] at ht; cases ht),
-        by have := hk.bal; simp only [] at this ⊢; omega⟩
-    · refine ⟨by simp only []; rw [hk.2.1], fun ht => (by have := hk.2.2; simp only [] at ht; rw [this] at ht; cases ht),
-        fun _ => hk.1, ?_⟩
-      simp only []; rw [hk.1, hk.2.1]; simp only []; omega
   cases op with
   | pushBackMove r =>
     cases r with
@@ -882,33 +959,16 @@ theorem fixed2_step_disciplined (mx : Nat) (a : Arr) (L : Log) (vs : List Elt) (
         · exact ⟨hk.viol, fun _ => hk.rep, fun ht => (by rw [hk.nothrow] at ht; cases ht), hk.bal⟩
         · rw [hk.1, hk.2.1]; exact ⟨rfl, fun ht => (by rw [hk.2.2] at ht; cases ht), fun _ => rfl, by omega⟩
   | emplaceBack r =>
-    cases r with
-    | ext v => exact viaFixed rfl rfl
-    | slot i =>
-      have hi : i < vs.length := by simpa [legal, hs] using hl
-      have hv : vs[i]! = vs[i] := by simp [hi]
-      by_cases hfull : a.cap = a.size
-      · refine viaCopy i (.emplaceBack (.ext vs[i]!)) hi ?_ rfl rfl
-          (by simp [spec, Ref.value, List.getD_eq_getElem?_getD, hi])
-        simp only [stepFixed2, if_pos hfull]
-        rw [read_live L (h.live hi), ← hv]
-      · have e : stepFixed2 mx a L (.emplaceBack (.slot i)) = step mx a L (.emplaceBack (.slot i)) := by
-          simp only [stepFixed2, if_neg hfull]
-        unfold Fixed2OK
-        rw [e]
-        rcases step_ok mx a L vs (.emplaceBack (.slot i)) h hl (by simp [refOK, hfull]) with hk | hk
-        · exact ⟨hk.viol, fun _ => hk.rep, fun ht => (by rw [hk.nothrow] at ht; cases ht), hk.bal⟩
-        · rw [hk.1, hk.2.1]; exact ⟨rfl, fun ht => (by rw [hk.2.2] at ht; cases ht), fun _ => rfl, by omega⟩
+    have hi : ∀ i, r = .slot i → i < vs.length := by
+      intro i hr; subst hr; simpa [legal, hs] using hl
+    exact emplaceBack2_ok mx a L vs r h hi
   | emplace p r =>
-    cases r with
-    | ext v => exact viaFixed rfl rfl
-    | slot i =>
-      have hp : p ≤ vs.length ∧ i < vs.length := by simpa [legal, hs] using hl
-      have hv : vs[i]! = vs[i] := by simp [hp.2]
-      refine viaCopy i (.emplace p (.ext vs[i]!)) hp.2 ?_ (by simpa [legal, hs] using hp.1) rfl
-        (by simp [spec, Ref.value, List.getD_eq_getElem?_getD, hp.2])
-      simp only [stepFixed2]
-      rw [read_live L (h.live hp.2), ← hv]
+    have hp : p ≤ vs.length := by cases r <;> simp [legal, hs] at hl <;> omega
+    have hi : ∀ i, r = .slot i → i < vs.length := by
+      intro i hr; subst hr
+      have : p ≤ vs.length ∧ i < vs.length := by simpa [legal, hs] using hl
+      exact this.2
+    exact emplace2_ok mx a L vs p r h hp hi
   | pushBack r => exact viaFixed rfl rfl
   | pushBackDefault => exact viaFixed rfl rfl
   | popBack => exact viaFixed rfl rfl
@@ -931,7 +991,7 @@ theorem fixed2_step_disciplined (mx : Nat) (a : Arr) (L : Log) (vs : List Elt) (
   | viewFill off len off2 len2 r => exact viaFixed rfl rfl
   | viewAssign off ws => exact viaFixed rfl rfl
 
-/-- the second repair handles the witnesses like `std::vector` -/
+/-- the current code handles the witnesses like `std::vector` -/
 example : abs (stepFixed2 1000 full4 {} (.emplaceBack (.slot 0))).arr = [10, 20, 30, 40, 10] ∧
     abs (stepFixed2 1000 full4 {} (.pushBackMove (.slot 1))).arr = [10, movedVal, 30, 40, 20] ∧
     abs (stepFixed2 1000 roomy4 {} (.emplace 0 (.slot 2))).arr = [30, 10, 20, 30, 40] ∧
